@@ -1,6 +1,31 @@
 package session
 
-import "time"
+import (
+	"crypto/rand"
+	"fmt"
+	"time"
+)
+
+// vRandScript: native replay only. The engine replaces generateJoinCode by 8 arbitrary alphabet indices
+// (inputs joincode<k>) and generateSessionID by fresh ids; natively crypto/rand is scripted to produce
+// exactly those draws: the k-th 8-byte read yields joincode<k>, 16-byte reads yield a counter.
+type vRandScript struct{ codes, ids int }
+
+func (r *vRandScript) Read(p []byte) (int, error) {
+	if len(p) == 8 {
+		r.codes++
+		copy(p, vBytesRaw(fmt.Sprintf("joincode%d", r.codes), 8))
+		return 8, nil
+	}
+	r.ids++
+	for i := range p {
+		p[i] = 0
+	}
+	if len(p) > 0 {
+		p[len(p)-1] = byte(r.ids)
+	}
+	return len(p), nil
+}
 
 // C14 (store part): join codes live exactly as long as their session; live codes pairwise distinct.
 // History of k operations over up to 3 created sessions; crypto/rand yields symbolic bytes, time.Now a
@@ -12,6 +37,11 @@ type vSess struct {
 }
 
 func vC14Run(steps int) {
+	if !vSymbolic() {
+		saved := rand.Reader
+		rand.Reader = &vRandScript{}
+		defer func() { rand.Reader = saved }()
+	}
 	ttl := time.Duration(0)
 	if vBool("ttlOn") {
 		ttl = time.Duration(vI64("ttl"))
